@@ -174,10 +174,25 @@ class Weaver:
             rule, frm, to = rw[0], rw[1], rw[2]
             count = rw[3] if len(rw) > 3 else 1
             # whitespace-insensitive match: any run of white space in `frm` matches any run in the source
+            if rule.endswith('~'):
+                # operand-generic form: IDENT in `frm` stands for any identifier / field path, re-used as \1, \2 in `to`
+                rule = rule[:-1]
+                parts = [re.escape(x).replace('IDENT', r'([A-Za-z_][A-Za-z0-9_\.]*)') for x in frm.split()]
+                rx = re.compile(r'\s+'.join(parts))
+                found = len(rx.findall(body))
+                if count != '*' and found != count:
+                    raise LostAnchor('%s: rewrite %s expects %d occurrence(s) of %r, found %d' % (where, rule, count, frm, found))
+                body = rx.sub(to, body)
+                self._rule(rule, where, frm, to)
+                continue
             parts = [re.escape(x) for x in frm.split()]
             rx = re.compile(r'\s+'.join(parts))
             found = len(rx.findall(body))
-            if found != count:
+            if count == '*':
+                # macro normalisations (N4): rewrite every occurrence that is there; a changed call simply
+                # stays as the source has it and is then judged by the verifier, not by the weaver
+                pass
+            elif found != count:
                 raise LostAnchor('%s: rewrite %s expects %d occurrence(s) of %r, found %d' % (where, rule, count, frm, found))
             body = rx.sub(lambda m: to, body)
             self._rule(rule, where, frm, to)
